@@ -329,6 +329,14 @@ func (s *Store) cb(ctx context.Context, kind uint8) (injected error) {
 		cancel()
 	}
 	if doPanic {
+		// what a storage panics with varies with the callback's number: a string and a plain error
+		// (panic(fmt.Errorf(..))) are as common in storage code as a runtime.Error
+		switch n % 3 {
+		case 1:
+			panic(fmt.Sprintf("storage: corrupted index at callback %d", n))
+		case 2:
+			panic(fmt.Errorf("storage: broken chunk at callback %d", n))
+		}
 		var empty []int
 		_ = empty[n] // a genuine runtime.Error: index out of range
 	}
